@@ -78,6 +78,19 @@ static void step_fail(hist_t *h, const char *op, const char *sig, const char *fm
     verdict_fail(sig, "step %d (%s): %s", h->step, op, d);
 }
 
+/* non-finite entries in returned factors: excused only under a threshold u < 1 (unbounded growth) or on a matrix that the
+   extended-precision reference finds singular to working precision (F16, F19); otherwise a violation */
+static void nonfinite_factors(hist_t *h, const char *op, dense_lu *D, csc_q *F)
+{
+    int n = h->n; int bad = 0;
+    for (size_t k = 0; k < (size_t)n * n && !bad; ++k) if (!isfinite((double)D->L[k].re) || !isfinite((double)D->L[k].im) || !isfinite((double)D->U[k].re) || !isfinite((double)D->U[k].im)) bad = 1;
+    if (!bad) return;
+    if (h->u < 1.0) verdict_skip("non-finite L/U under a pivoting threshold u=%g < 1 (element growth is unbounded)", h->u);
+    ld g = 0, mp = 0;
+    if (!ref_nonsingular(h->vt, F, &g, &mp)) verdict_skip("non-finite L/U on a matrix that is singular to working precision (reference: min pivot/amax %.2Le)", mp);
+    step_fail(h, op, "oracle:LU_not_finite", "L or U contains a non-finite value (reference elimination: growth %.2Le, min pivot/amax %.2Le)", g, mp);
+}
+
 /* oracle after a factorization step */
 static void check_factor_step(hist_t *h, const char *op, int_t info, int usepr, const int_t *perm_r_in)
 {
@@ -96,6 +109,7 @@ static void check_factor_step(hist_t *h, const char *op, int_t info, int usepr, 
         const char *bad0 = validate_LU(vt, n, &h->L, &h->U, 1, 1);
         if (bad0) { char cls[64]; snprintf(cls, sizeof cls, "%s", bad0); char *c = strchr(cls, ':'); if (c) *c = 0; char sig[100]; snprintf(sig, sizeof sig, "oracle:LU_malformed:%s", cls); step_fail(h, op, sig, "after the singular return info=%d: %s", (int)info, bad0); }
         dense_lu *D0 = extract_LU(vt, n, &h->L, &h->U);
+        nonfinite_factors(h, op, D0, &F);
         int first0 = -1; for (int j = 0; j < n; ++j) { zq u = D0->U[(size_t)j * n + j]; if (u.re == 0 && u.im == 0) { first0 = j; break; } }
         free_dense_lu(D0);
         if (first0 + 1 != info) step_fail(h, op, "oracle:info_inconsistent_with_U", "info=%d but the first exactly-zero diagonal entry of the returned U is at position %d", (int)info, first0 + 1);
@@ -105,27 +119,30 @@ static void check_factor_step(hist_t *h, const char *op, int_t info, int usepr, 
     const char *bad = validate_LU(vt, n, &h->L, &h->U, 1, 1);
     if (bad) { char cls[64]; snprintf(cls, sizeof cls, "%s", bad); char *c = strchr(cls, ':'); if (c) *c = 0; char sig[100]; snprintf(sig, sizeof sig, "oracle:LU_malformed:%s", cls); step_fail(h, op, sig, "%s", bad); }
     dense_lu *D = extract_LU(vt, n, &h->L, &h->U);
+    nonfinite_factors(h, op, D, &F);
     if (check_reconstruction(vt, &F, D, h->perm_r, h->perm_c, msg, sizeof msg)) step_fail(h, op, "oracle:reconstruction_bound", "%s (stale or wrong factor for the values current at this call)", msg);
     long amb, off, kept;
     if (check_pivot_policy(vt, D, h->perm_r, h->perm_c, h->u, usepr, 0, &amb, &off, &kept, msg, sizeof msg)) step_fail(h, op, "oracle:pivot_policy", "%s", msg);
     if (usepr && perm_r_in) {
-        /* reference elimination with the old row order: do all old pivots pass the threshold with a margin? */
-        zq *A = hx_calloc((size_t)n * n + 1, sizeof(zq));
-        for (int j = 0; j < n; ++j) for (long p = F.ptr[j]; p < F.ptr[j + 1]; ++p) { zq *a = &A[(size_t)h->perm_c[j] * n + perm_r_in[F.ind[p]]]; *a = zq_add(*a, F.val[p]); }
-        int all_pass = 1, some_fail = 0;
-        for (int k = 0; k < n; ++k) {
-            ld pm = 0; for (int i = k; i < n; ++i) { zq a = A[(size_t)k * n + i]; ld m = vt->is_complex ? zq_abs1(a) : fabsl(a.re); if (m > pm) pm = m; }
-            zq pk = A[(size_t)k * n + k]; ld mk = vt->is_complex ? zq_abs1(pk) : fabsl(pk.re);
-            if (mk == 0 || mk < h->u * pm * (1 - 1e-6L)) { some_fail = 1; all_pass = 0; break; }
-            if (mk < h->u * pm * (1 + 1e-6L)) all_pass = 0;
+        /* reference elimination with the old row order: do all old pivots pass the threshold with a margin that covers the
+           rounding errors of the working precision?  E accumulates |a| + sum |l||u| per entry, so that 8n*eps*E bounds the distance
+           between an entry as the library computed it and the reference value.  (The opposite direction - an old pivot that fails
+           the threshold must not be kept - is decided on the returned factors themselves by check_pivot_policy: multipliers <= 1/u.) */
+        zq *A = hx_calloc((size_t)n * n + 1, sizeof(zq)); ld *E = hx_calloc((size_t)n * n + 1, sizeof(ld));
+        for (int j = 0; j < n; ++j) for (long p = F.ptr[j]; p < F.ptr[j + 1]; ++p) { size_t q = (size_t)h->perm_c[j] * n + perm_r_in[F.ind[p]]; A[q] = zq_add(A[q], F.val[p]); E[q] += zq_abs(F.val[p]); }
+        int all_pass = 1; ld ce = 8 * (ld)n * (ld)vt->eps * (vt->is_complex ? 4 : 1);
+        for (int k = 0; k < n && all_pass; ++k) {
+            ld pm = 0, pme = 0; for (int i = k; i < n; ++i) { zq a = A[(size_t)k * n + i]; ld m = vt->is_complex ? zq_abs1(a) : fabsl(a.re); ld e = ce * E[(size_t)k * n + i] * (vt->is_complex ? 2 : 1); if (m + e > pm + pme) { pm = m; pme = e; } }
+            zq pk = A[(size_t)k * n + k]; ld mk = vt->is_complex ? zq_abs1(pk) : fabsl(pk.re); ld ek = ce * E[(size_t)k * n + k] * (vt->is_complex ? 2 : 1);
+            if (mk == 0 || !(mk - ek > h->u * (pm + pme) * (1 + 1e-6L))) { all_pass = 0; break; }
             for (int i = k + 1; i < n; ++i) { zq *l = &A[(size_t)k * n + i]; if (l->re == 0 && l->im == 0) continue; *l = zq_div(*l, pk); }
             for (int j = k + 1; j < n; ++j) { zq ukj = A[(size_t)j * n + k]; if (ukj.re == 0 && ukj.im == 0) continue;
-                for (int i = k + 1; i < n; ++i) { zq l = A[(size_t)k * n + i]; if (l.re == 0 && l.im == 0) continue; zq *a = &A[(size_t)j * n + i]; *a = zq_sub(*a, zq_mul(l, ukj)); } }
+                for (int i = k + 1; i < n; ++i) { zq l = A[(size_t)k * n + i]; if (l.re == 0 && l.im == 0) continue; size_t q = (size_t)j * n + i; A[q] = zq_sub(A[q], zq_mul(l, ukj)); E[q] += zq_abs(l) * zq_abs(ukj); } }
         }
-        hx_free(A);
+        hx_free(A); hx_free(E);
         int same = !memcmp(perm_r_in, h->perm_r, sizeof(int_t) * n);
-        if (all_pass) { feat_add("usepr_kept", 1); if (!same) step_fail(h, op, "C08:perm_r_changed_although_old_pivots_pass", "usepr=YES and every old pivot passes the threshold u=%g with margin, but perm_r was changed", h->u); }
-        else if (some_fail) { feat_add("usepr_fallback", 1); if (same) step_fail(h, op, "C08:perm_r_kept_although_old_pivot_fails", "usepr=YES, an old pivot clearly fails the threshold u=%g, but perm_r came back unchanged", h->u); }
+        if (all_pass) { feat_add("usepr_kept", 1); if (!same) step_fail(h, op, "C08:perm_r_changed_although_old_pivots_pass", "usepr=YES and every old pivot passes the threshold u=%g with a margin above the rounding level, but perm_r was changed", h->u); }
+        else if (!same) feat_add("usepr_fallback", 1);
     }
     feat("nsuper", D->nsuper + 1); feat("maxsup", D->maxsup);
     h->probe_hash = fnv1a(h->perm_r, sizeof(int_t) * n, fnv1a(h->perm_c, sizeof(int_t) * n, hash_LU(vt, &h->L, &h->U)));
